@@ -1,5 +1,5 @@
-(* C15, converse direction, the file level: every text the parser accepts is the print of a concrete syntax tree that
-   erases to the parsed document -- and that tree is well-formed unless it lies in the (decidable) exclusion [outside]. *)
+(* C15, converse direction, the file level: every text the parser accepts is the print of a WELL-FORMED concrete syntax
+   tree that erases to the parsed document. *)
 From PVIdl Require Import Comb Ast Parser Print Proofs.Total Proofs.RoundTok Proofs.RoundPath Proofs.RoundAnn Proofs.RoundTy
   Proofs.RoundKit Proofs.Lex Proofs.RoundNum Proofs.RoundConst Proofs.RoundDecl Proofs.RoundField Proofs.RoundStruct Proofs.RoundFn Proofs.RoundFile
   Proofs.InvKit Proofs.InvTok Proofs.InvTy Proofs.InvNum Proofs.InvConst Proofs.InvDecl Proofs.InvItems.
@@ -7,14 +7,6 @@ From Coq Require Import ZifyN ZifyNat ZifyBool.
 From Coq Require String.
 Import String.StringSyntax.
 Open Scope nat_scope.
-
-(* the exclusion: what the parser accepts but wf_file does not admit *)
-Fixpoint ok_items (l : list (citem * blank)) : bool :=
-  match l with
-  | [] => true
-  | (it, b) :: l' => ok_item it && ok_items l'
-  end.
-Definition outside (c : cfile) : bool := negb (ok_items (fl_items c)).
 
 Definition fiel : Type := (blank * citem * blank)%type.
 Definition pr_fiel (e : fiel) (r : list byte) : list byte :=
@@ -62,7 +54,7 @@ Proof.
 Qed.
 
 Lemma chain_items : forall es, chain pr_fiel fiQ es [] -> fihdnil es ->
-  prl pr_fiel es [] = pr_items (drop_lead es) [] /\ (ok_items (drop_lead es) = true -> wf_items (drop_lead es) = true).
+  prl pr_fiel es [] = pr_items (drop_lead es) [] /\ wf_items (drop_lead es) = true.
 Proof.
   induction es as [|[[bl it] b] es IH]; cbn [chain prl fold_right drop_lead map pr_items fihdnil fst snd]; intros Hc Hh.
   - split; reflexivity.
@@ -73,14 +65,17 @@ Proof.
     { destruct es as [|[[bl' it'] b'] es']; [contradiction|]. intros _. cbn [fihdnil] in Hh'. subst bl'. cbn [chain] in Hc.
       destruct Hc as [[[_ [_ [_ Ha]]] _] _]. cbn [prl fold_right pr_fiel pr_blank]. exact Ha. }
     destruct (IH Hc Hh') as [E Wr]. rewrite E in *. cbn [pr_blank]. split; [reflexivity|].
-    cbn [ok_items wf_items]. intros Hok. bsplit Hok.
+    cbn [wf_items].
     set (R := pr_items (drop_lead es) []) in *.
+    assert (AR : hd_ascii R = true).
+    { destruct es as [|e0 es0]; [reflexivity|]. destruct (Hd' ltac:(discriminate)) as [c0 [rest [Ec0 Hc0]]]. rewrite Ec0.
+      unfold hd_ascii. cbn [hd_sat]. apply idh_ascii. now rewrite Hc0. }
     assert (EnR : is_nil R = is_nil (drop_lead es)).
     { destruct (drop_lead es) as [|x l'] eqn:El; [reflexivity|]. cbn [is_nil]. destruct R eqn:ER; [|reflexivity].
       unfold R in ER. apply pr_items_nil in ER. try rewrite El in ER. discriminate. }
     destruct Pit as [Wit [Hop [Hnid Hah]]].
     rewrite (is_nil_pr_blank b R Kb) in Wit. rewrite EnR in Wit. rewrite andb_comm in Wit.
-    rewrite (Wit ltac:(assumption)), (Wr ltac:(assumption)).
+    rewrite (Wit (blank_ok_ascii _ _ Kb AR)), Wr.
     pose proof (blank_ok_wfb b R Kb) as Wb. rewrite EnR in Wb. rewrite Wb. cbn [andb]. rewrite andb_true_r.
     assert (A1 : negb (item_open it) || is_nil b = true).
     { destruct (item_open it) eqn:Eo; [|reflexivity]. rewrite (Hopb eq_refl). reflexivity. }
@@ -97,7 +92,7 @@ Proof.
     { intros Hx. rewrite Ec0 in Hx. unfold nid in Hx. cbn [hd_sat] in Hx. rewrite Hi in Hx. discriminate. }
     destruct it as [? ? ?|? ? ?|?|?|c|?|? ? ?|?]; try (exfalso; exact (Hfalse Hnid)).
     (* a constant whose value is directly followed by the keyword of the next item *)
-    specialize (Wr ltac:(assumption)). cbn [wf_items] in Wr. bsplit Wr.
+    cbn [wf_items] in Wr. bsplit Wr.
     destruct (item_kw_split _ it' (pr_blank b' (pr_items l' [])) ltac:(eassumption)) as [bb [X' [EX [Wbb Nbb]]]].
     assert (ER : R = item_word it' ++ pr_blank bb X') by (unfold R; cbn [pr_items]; exact EX).
     assert (LX : lstopk (pr_blank bb X') = true).
@@ -106,7 +101,7 @@ Proof.
 Qed.
 
 Theorem file_inv s doc : p_file lf df s = POk [] doc ->
-  exists c, pr_file c [] = s /\ erase_file c = doc /\ (outside c = false -> wf_file c = true).
+  exists c, pr_file c [] = s /\ erase_file c = doc /\ wf_file c = true.
 Proof.
   rewrite p_file_eq. intros H. apply pbind_ok in H. destruct H as [i1 [o1 [E1 H]]]. apply pbind_ok in H. destruct H as [i2 [[items e] [E2 H]]].
   inversion H; subst. cbn [fst] in *.
@@ -116,10 +111,10 @@ Proof.
   assert (Hh : fihdnil es).
   { destruct es as [|[[bl it] b] es]; [exact I|]. cbn [chain] in Hc. destruct Hc as [[_ [_ [_ [_ Hx]]]] _]. apply Hx. exact N0. }
   destruct (chain_items es Hc Hh) as [E Wl]. rewrite E in *.
-  exists (mkCFile b0 (drop_lead es)). unfold pr_file, erase_file, wf_file, outside. cbn [fl_b0 fl_items].
+  exists (mkCFile b0 (drop_lead es)). unfold pr_file, erase_file, wf_file. cbn [fl_b0 fl_items].
   split; [reflexivity|]. split.
   - rewrite erase_drop_lead. rewrite <- package_of_eq. reflexivity.
-  - intros Ho. apply negb_false_iff in Ho. rewrite (Wl Ho), andb_true_r.
+  - rewrite Wl, andb_true_r.
     pose proof (blank_ok_wfb b0 _ K0) as Wb. replace (is_nil (pr_items (drop_lead es) [])) with (is_nil (drop_lead es)) in Wb; [exact Wb|].
     destruct (drop_lead es) as [|x l'] eqn:El; [reflexivity|]. cbn [is_nil]. destruct (pr_items (x :: l') []) eqn:ER; [|reflexivity].
     apply pr_items_nil in ER. discriminate.
@@ -129,8 +124,18 @@ End File.
 
 (* ---------- C15, the converse ---------- *)
 Theorem accepted_is_printed s doc : parse_file s = POk [] doc ->
-  exists c, pr_file c [] = s /\ erase_file c = doc /\ (outside c = false -> wf_file c = true).
+  exists c, pr_file c [] = s /\ erase_file c = doc /\ wf_file c = true.
 Proof. unfold parse_file. apply file_inv. Qed.
+
+(* both directions: the texts the parser accepts are exactly the prints of well-formed concrete syntax trees, and the
+   document it returns is the one the tree denotes *)
+Theorem accepted_iff_printed s doc :
+  parse_file s = POk [] doc <-> exists c, wf_file c = true /\ pr_file c [] = s /\ erase_file c = doc.
+Proof.
+  split.
+  - intros H. destruct (accepted_is_printed s doc H) as [c [E1 [E2 W]]]. exists c. auto.
+  - intros [c [W [<- <-]]]. now apply roundtrip_file.
+Qed.
 
 (* layout independence as a statement about every pair of accepted texts: if they are prints of concrete syntax trees
    that denote the same document (the same tokens modulo layout), they parse to the same document *)
@@ -165,15 +170,56 @@ Definition unusual_cst : cfile :=
                  (mkTail [] None (SepSome true [BLine (txt "end")]))), []) ].
 
 Example accepted_is_printed_example :
-  pr_file unusual_cst [] = unusual_text /\ wf_file unusual_cst = true /\ outside unusual_cst = false /\
+  pr_file unusual_cst [] = unusual_text /\ wf_file unusual_cst = true /\
   parse_file unusual_text = POk [] (erase_file unusual_cst).
 Proof. vm_compute. repeat split. Qed.
 
-(* texts the parser accepts whose tree lies in the exclusion: a type named like a container keyword, a number directly
-   followed by a word inside a constant list *)
-Example outside_examples :
-  (exists d, parse_file (txt "typedef list T") = POk [] d) /\
-  outside (mkCFile [] [(CITypedef (mkCTypedef [BWs (txt " ")] (CType (CTPath (mkCPath (txt "list") [])) None) [BWs (txt " ")] (txt "T")
-                                    (mkTail [] None SepNone)), [])]) = false /\
-  (exists d, parse_file (txt "const i8 c=[5x]") = POk [] d).
-Proof. split; [eexists; vm_compute; reflexivity|]. split; [vm_compute; reflexivity|eexists; vm_compute; reflexivity]. Qed.
+(* layouts that used to lie outside the well-formed trees and are admitted now: container words as type names, result
+   types that begin with the words oneway / throws, constant values, enum values and constant items that touch *)
+Definition touching_text : list byte :=
+  txt "typedef list T typedef set(a='b') U const i8 c=[5x true.5 a.5 0xfffffffffffffffffffff 5e99999999999999999999 --1.5 1..5]" ++
+  txt "enum E{A=5B=0x1fg}const i8 d=5struct S{}service V{oneway.x f()throws g()throws(a='b') h()oneway(a='b') k()}".
+
+Definition touching_cst : cfile :=
+  let sp := [BWs (txt " ")] in
+  let pt s := CType (CTPath (mkCPath s [])) None in
+  let num m h ds := CCInt (mkCInt m h ds) in
+  let pth s := CCPath (mkCPath s []) in
+  let dbl b := CCDbl (mkCDbl false false b) in
+  let ann := [mkCAnn [] (txt "a") [] [] (mkLit false (txt "b")) [] SepNone] in
+  let el v b r := CLCons v b SepNone r in
+  let lst := CCList []
+    (el (num 0 false (txt "5")) [] (el (pth (txt "x")) sp (el (CCBool true) [] (el (dbl (DBodyB (txt "5") None)) sp
+    (el (pth (txt "a")) [] (el (dbl (DBodyB (txt "5") None)) sp (el (num 0 false (txt "0")) [] (el (pth (txt "xfffffffffffffffffffff")) sp
+    (el (num 0 false (txt "5")) [] (el (pth (txt "e99999999999999999999")) sp (el (num 2 false (txt "1")) [] (el (dbl (DBodyB (txt "5") None)) sp
+    (el (dbl (DBodyA (txt "1") [] None)) [] (el (dbl (DBodyB (txt "5") None)) [] CLNil)))))))))))))) in
+  let fn t name := mkCFunction None t sp name [] [] [] [] None None SepNone in
+  mkCFile []
+    [ (CITypedef (mkCTypedef sp (pt (txt "list")) sp (txt "T") (mkTail sp None SepNone)), []);
+      (CITypedef (mkCTypedef sp (CType (CTPath (mkCPath (txt "set") [])) (Some ([], ann))) sp (txt "U") (mkTail sp None SepNone)), []);
+      (CIConst (mkCConstant sp (CType (CTBase BI8) None) sp (txt "c") [] [] lst (mkTail [] None SepNone)), []);
+      (CIEnum (mkCEnum sp (txt "E") [] [] [mkCEnumVal (txt "A") [] (Some ([], mkCInt 0 false (txt "5"), [])) None SepNone [];
+                                            mkCEnumVal (txt "B") [] (Some ([], mkCInt 0 true (txt "1f"), [])) None SepNone [];
+                                            mkCEnumVal (txt "g") [] None None SepNone []] [] None), []);
+      (CIConst (mkCConstant sp (CType (CTBase BI8) None) sp (txt "d") [] [] (num 0 false (txt "5")) (mkTail [] None SepNone)), []);
+      (CIStruct SKStruct sp (mkCStruct (txt "S") [] [] [] (mkTail [] None SepNone)), []);
+      (CIService (mkCService sp (txt "V") None [] [
+          ([], fn (CType (CTPath (mkCPath (txt "oneway") [([], [], txt "x")])) None) (txt "f"));
+          ([], fn (pt (txt "throws")) (txt "g"));
+          ([], fn (CType (CTPath (mkCPath (txt "throws") [])) (Some ([], ann))) (txt "h"));
+          ([], fn (CType (CTPath (mkCPath (txt "oneway") [])) (Some ([], ann))) (txt "k")) ] [] (mkTail [] None SepNone)), []) ].
+
+Example touching_example :
+  pr_file touching_cst [] = touching_text /\ wf_file touching_cst = true /\
+  parse_file touching_text = POk [] (erase_file touching_cst).
+Proof. vm_compute. repeat split. Qed.
+
+(* ... and what stays outside because it is a different document: a blank-less 5e5 is one double, not 5 and e5 *)
+Example fusing_example :
+  let c v1 v2 := mkCFile [] [(CIConst (mkCConstant [BWs (txt " ")] (CType (CTBase BI8) None) [BWs (txt " ")] (txt "c") [] []
+                     (CCList [] (CLCons v1 [] SepNone (CLCons v2 [] SepNone CLNil))) (mkTail [] None SepNone)), [])] in
+  let five := CCInt (mkCInt 0 false (txt "5")) in let zero := CCInt (mkCInt 0 false (txt "0")) in
+  let pth s := CCPath (mkCPath s []) in
+  wf_file (c five (pth (txt "e5"))) = false /\ wf_file (c zero (pth (txt "x1f"))) = false /\ wf_file (c five (CCDbl (mkCDbl false false (DBodyB (txt "5") None)))) = false /\
+  wf_file (c (CCBool true) (pth (txt "x"))) = false /\ wf_file (c five (pth (txt "e"))) = true.
+Proof. vm_compute. repeat split. Qed.
